@@ -69,7 +69,7 @@ def plan(tier, seed):
 
 
 def mandatory(tier):
-    return [f"format/{f}" for f in FORMATS] + [f"dtype/{d}" for d in DTYPES] + ["D/2", "D/3", "C/1", "C/2", "C/3", "compress/True", "compress/False", "flow", "sitk_reads_deepali", "deepali_reads_sitk", "meta_bytes", "header_text", "sequence", "singleton_axis", "singleton_axis/nifti/C1", "singleton_axis/other/C1"]
+    return [f"format/{f}" for f in FORMATS] + [f"dtype/{d}" for d in DTYPES] + ["D/2", "D/3", "C/1", "C/2", "C/3", "compress/True", "compress/False", "flow", "sitk_reads_deepali", "deepali_reads_sitk", "meta_bytes", "header_text", "sequence", "noncontiguous_input", "singleton_axis", "singleton_axis/nifti/C1", "singleton_axis/other/C1"]
 
 
 class KeyCtx:
@@ -142,7 +142,13 @@ def config_item(ctx, fmt, D, C, dtype, compress, rep):
         arr = rng.integers(max(info_.min, -30000), min(info_.max, 30000), size=(C,) + shape).astype(npdt)
     else:
         arr = rng.normal(size=(C,) + shape).astype(npdt)
-    data = torch.from_numpy(arr.copy())
+    if rep % 2 == 0 and D + 1 > 2:
+        # the same logical values held in a permuted (Fortran-ordered) view: writers must not depend on memory order
+        data = torch.from_numpy(np.asfortranarray(arr.copy()))
+        ctx.bucket("noncontiguous_input")
+        assert not data.is_contiguous() or min(arr.shape) == 1
+    else:
+        data = torch.from_numpy(arr.copy())
     for b in (f"format/{fmt}", f"dtype/{dtype}", f"D/{D}", f"C/{C}", f"compress/{compress}"):
         ctx.bucket(b)
     info = dict(format=fmt, D=D, C=C, dtype=dtype, compress=compress)
